@@ -712,13 +712,15 @@ REVIEWED_MEMO = {
 BASE_WRITER = "ufo2ft.featureWriters.baseFeatureWriter.BaseFeatureWriter"
 
 
-def r087(prog, chk, rule="R08.7"):
-    """Objects a caller can hand in as instances and reuse (feature writers) keep
-    no per-font state outside self.context, which setContext replaces on every
-    call; memoising decorators only on reviewed per-compile classes."""
+def check_memo_decorators(prog, chk, rule, only_modules=None) -> int:
+    """Memoising decorators (cached_property / lru_cache / cache) only on the reviewed list of per-compile classes:
+    anything else serves the value computed for the first font / the first state of the glyph sets to every later use.
+    Shared with C14 (filters carry no state) and C09 (caches of the instantiator outlive a changed glyph set)."""
     ix = prog.ix
     n = 0
     for fi in ix.functions.values():
+        if only_modules is not None and not any(fi.module.name.startswith(m_) for m_ in only_modules):
+            continue
         for d in getattr(fi.node, "decorator_list", []):
             nm = A.callee_name(d) if isinstance(d, ast.Call) else (d.attr if isinstance(d, ast.Attribute) else getattr(d, "id", ""))
             if nm in MEMO_DECORATORS:
@@ -729,6 +731,15 @@ def r087(prog, chk, rule="R08.7"):
                 chk.ob(rule, f"{fi.short}|@{nm}", ok, where(fi), detail=REVIEWED_MEMO.get(fi.short, ""), nontrivial=False,
                        message=f"{fi.short} memoises its result on the object / in the process (@{nm}): the value computed for the first font is served to every "
                                f"later compile that reuses the object (not on the reviewed list of per-compile classes)")
+    return n
+
+
+def r087(prog, chk, rule="R08.7"):
+    """Objects a caller can hand in as instances and reuse (feature writers) keep
+    no per-font state outside self.context, which setContext replaces on every
+    call; memoising decorators only on reviewed per-compile classes."""
+    ix = prog.ix
+    n = check_memo_decorators(prog, chk, rule)
     for ci in ix.subclasses(BASE_WRITER):
         for m in ci.methods.values():
             for node in A.body_nodes(m.node):
